@@ -335,6 +335,9 @@ func c06cGen(r *verifh.Rand, i int) interface{} {
 	}
 	if r.Bool(1, 10) {
 		in.StoreKey = r.Pick("OTHER", "akid")
+		if r.Bool(1, 2) {
+			in.Secret = "" // unknown key id signed with the empty secret
+		}
 	} else if r.Bool(1, 10) {
 		in.StoreSec = r.Pick("SECRE", "secret", "")
 	}
